@@ -191,6 +191,9 @@ pub struct Finding {
     pub witness: Option<serde_json::Value>,
     #[serde(default)]
     pub commit: Option<String>,
+    /// build variant the witness belongs to (None = default build)
+    #[serde(default)]
+    pub variant: Option<String>,
 }
 
 pub fn verif_root() -> PathBuf {
@@ -219,12 +222,41 @@ pub fn load_findings() -> Vec<Finding> {
     }
 }
 
+/// Signature patterns of the open findings. A pattern is matched literally,
+/// or as a suffix when it starts with `*`, or as a prefix when it ends with `*`.
+#[derive(Clone, Debug, Default)]
+pub struct OpenSet(pub Vec<String>);
+
+impl OpenSet {
+    /// returns the pattern that matches
+    pub fn find(&self, sig: &str) -> Option<&str> {
+        self.0
+            .iter()
+            .find(|p| {
+                if let Some(suffix) = p.strip_prefix('*') {
+                    sig.ends_with(suffix)
+                } else if let Some(prefix) = p.strip_suffix('*') {
+                    sig.starts_with(prefix)
+                } else {
+                    p.as_str() == sig
+                }
+            })
+            .map(|x| x.as_str())
+    }
+    pub fn contains(&self, sig: &str) -> bool {
+        self.find(sig).is_some()
+    }
+}
+
 // ---------------------------------------------------------------------------
 // run context
 
 #[derive(Clone, Debug, Serialize, Deserialize)]
 pub struct ReplayFile {
     pub property: String,
+    /// build variant the case was found with ("alt" = preserve_order/unicode/speedups build)
+    #[serde(default)]
+    pub variant: Option<String>,
     pub part: String,
     pub tier: String,
     pub seed: u64,
@@ -234,6 +266,7 @@ pub struct ReplayFile {
 }
 
 pub struct Violation {
+    pub variant: Option<String>,
     pub part: String,
     pub case: serde_json::Value,
     pub failure: Failure,
@@ -264,6 +297,8 @@ pub struct Ctx {
     known_hits: BTreeMap<String, u64>,
     start: Instant,
     pub threads: usize,
+    /// running as a sub-process variant: results are exported, no evidence is written
+    pub sub: bool,
 }
 
 fn hash_case<T: Serialize>(case: &T) -> u64 {
@@ -308,15 +343,18 @@ impl Ctx {
             known_hits: Default::default(),
             start: Instant::now(),
             threads,
+            sub: false,
         }
     }
 
-    pub fn open_signatures(&self) -> HashSet<String> {
-        self.findings
-            .iter()
-            .filter(|f| f.status == "open")
-            .map(|f| f.signature.clone())
-            .collect()
+    pub fn open_signatures(&self) -> OpenSet {
+        OpenSet(
+            self.findings
+                .iter()
+                .filter(|f| f.status == "open")
+                .map(|f| f.signature.clone())
+                .collect(),
+        )
     }
 
     fn part_stats(&mut self, name: &str) -> &mut PartStats {
@@ -353,7 +391,7 @@ impl Ctx {
     /// Returns Some(failure) for an *unlisted* failure.
     fn eval_case<P: Part>(
         case: &P::Case,
-        open: &HashSet<String>,
+        open: &OpenSet,
         stats: Option<&mut PartStats>,
     ) -> Option<Failure> {
         let verdict = match guarded(|| P::check(case)) {
@@ -363,7 +401,7 @@ impl Ctx {
         let mut known = None;
         let fail = match verdict.fail {
             Some(f) if open.contains(&f.signature) => {
-                known = Some(f.signature);
+                known = open.find(&f.signature).map(|x| x.to_string());
                 None
             }
             other => other,
@@ -498,6 +536,7 @@ impl Ctx {
                     .any(|v| v.failure.signature == failure.signature && v.part == P::NAME)
                 {
                     self.violations.push(Violation {
+                        variant: variant_name(),
                         part: P::NAME.to_string(),
                         case: serde_json::to_value(&case).unwrap_or_default(),
                         failure,
@@ -560,6 +599,7 @@ impl Ctx {
                     .any(|v| v.failure.signature == failure.signature && v.part == P::NAME)
                 {
                     self.violations.push(Violation {
+                        variant: variant_name(),
                         part: P::NAME.to_string(),
                         case: serde_json::to_value(&case).unwrap_or_default(),
                         failure,
@@ -607,6 +647,7 @@ impl Ctx {
             };
             if let Some(failure) = Self::eval_case::<P>(&case, &open, Some(&mut stats)) {
                 self.violations.push(Violation {
+                    variant: variant_name(),
                     part: P::NAME.to_string(),
                     case: rf.case,
                     failure,
@@ -633,6 +674,7 @@ impl Ctx {
         let mut stats = PartStats::default();
         if let Some(failure) = Self::eval_case::<P>(&case, &open, Some(&mut stats)) {
             self.violations.push(Violation {
+                variant: variant_name(),
                 part: P::NAME.to_string(),
                 case: rf.case.clone(),
                 failure,
@@ -649,7 +691,7 @@ impl Ctx {
     pub fn run_finding_witnesses<P: Part>(&mut self) {
         let findings = self.findings.clone();
         for f in findings {
-            if f.part.as_deref() != Some(P::NAME) {
+            if f.part.as_deref() != Some(P::NAME) || f.variant != variant_name() {
                 continue;
             }
             let Some(w) = f.witness.clone() else { continue };
@@ -660,18 +702,19 @@ impl Ctx {
                     std::process::exit(2);
                 }
             };
-            let none = HashSet::new();
+            let none = OpenSet::default();
             let mut stats = PartStats::default();
             let res = Self::eval_case::<P>(&case, &none, Some(&mut stats));
             *stats.labels.entry("finding_witnesses").or_default() += 1;
             self.merge(P::NAME, stats);
             match (f.status.as_str(), res) {
-                ("open", Some(fail)) if fail.signature == f.signature => {
+                ("open", Some(fail)) if OpenSet(vec![f.signature.clone()]).contains(&fail.signature) => {
                     *self.known_hits.entry(f.signature.clone()).or_default() += 1;
                 }
                 ("open", Some(fail)) => {
                     // the witness fails differently now: that is a new violation
                     self.violations.push(Violation {
+                        variant: variant_name(),
                         part: P::NAME.to_string(),
                         case: w,
                         failure: fail,
@@ -685,6 +728,7 @@ impl Ctx {
                 }
                 (_, Some(fail)) => {
                     self.violations.push(Violation {
+                        variant: variant_name(),
                         part: P::NAME.to_string(),
                         case: w,
                         failure: fail,
@@ -696,11 +740,12 @@ impl Ctx {
     }
 
     pub fn add_violation(&mut self, part: &str, case: serde_json::Value, failure: Failure) {
-        if self.open_signatures().contains(&failure.signature) {
-            *self.known_hits.entry(failure.signature).or_default() += 1;
+        if let Some(p) = self.open_signatures().find(&failure.signature) {
+            *self.known_hits.entry(p.to_string()).or_default() += 1;
             return;
         }
         self.violations.push(Violation {
+            variant: variant_name(),
             part: part.to_string(),
             case,
             failure,
@@ -839,6 +884,7 @@ impl Ctx {
         for v in &self.violations {
             let rf = ReplayFile {
                 property: self.property.to_string(),
+                variant: v.variant.clone(),
                 part: v.part.clone(),
                 tier: self.tier.name().to_string(),
                 seed: self.seed,
@@ -865,6 +911,148 @@ impl Ctx {
             );
         }
         1
+    }
+}
+
+/// name of the build variant of this binary
+pub fn variant_name() -> Option<String> {
+    if cfg!(feature = "alt") {
+        Some("alt".to_string())
+    } else {
+        None
+    }
+}
+
+#[derive(Serialize, Deserialize)]
+struct ExportedPart {
+    name: String,
+    evaluations: u64,
+    nontrivial: Vec<u64>,
+    labels: BTreeMap<String, u64>,
+    samples: Vec<serde_json::Value>,
+    known_hits: BTreeMap<String, u64>,
+    exhaustive: Option<bool>,
+}
+
+#[derive(Serialize, Deserialize)]
+struct ExportedViolation {
+    variant: Option<String>,
+    part: String,
+    case: serde_json::Value,
+    signature: String,
+    detail: String,
+}
+
+#[derive(Serialize, Deserialize)]
+struct Exported {
+    parts: Vec<ExportedPart>,
+    violations: Vec<ExportedViolation>,
+    known_hits: BTreeMap<String, u64>,
+}
+
+fn leak(s: &str) -> &'static str {
+    Box::leak(s.to_string().into_boxed_str())
+}
+
+impl Ctx {
+    /// Serialises everything this run collected (used by sub-process variants).
+    pub fn export(&self) -> String {
+        let parts = self
+            .part_order
+            .iter()
+            .map(|name| {
+                let st = &self.parts[name];
+                ExportedPart {
+                    name: name.clone(),
+                    evaluations: st.evaluations,
+                    nontrivial: st.nontrivial.iter().copied().collect(),
+                    labels: st.labels.iter().map(|(k, v)| (k.to_string(), *v)).collect(),
+                    samples: st.samples.clone(),
+                    known_hits: st.known_hits.clone(),
+                    exhaustive: st.exhaustive,
+                }
+            })
+            .collect();
+        let violations = self
+            .violations
+            .iter()
+            .map(|v| ExportedViolation {
+                variant: v.variant.clone(),
+                part: v.part.clone(),
+                case: v.case.clone(),
+                signature: v.failure.signature.clone(),
+                detail: v.failure.detail.clone(),
+            })
+            .collect();
+        serde_json::to_string(&Exported {
+            parts,
+            violations,
+            known_hits: self.known_hits.clone(),
+        })
+        .unwrap()
+    }
+
+    /// Runs the same property in another build variant (binary path in env `var`) and merges
+    /// its counts, violations and known-finding hits under the part prefix `<label>:`.
+    pub fn run_variant(&mut self, var: &str, label: &str) {
+        let Ok(bin) = std::env::var(var) else {
+            self.extra.insert(
+                format!("variant_{label}"),
+                format!("not run: {var} is not set (use ./check)").into(),
+            );
+            return;
+        };
+        let out = std::process::Command::new(&bin)
+            .arg(self.property)
+            .arg(self.tier.name())
+            .arg("--sub")
+            .env("VERIF_SEED", self.seed.to_string())
+            .output();
+        let out = match out {
+            Ok(o) => o,
+            Err(e) => {
+                eprintln!("cannot run variant {label} ({bin}): {e}");
+                std::process::exit(2);
+            }
+        };
+        let text = String::from_utf8_lossy(&out.stdout);
+        let Some(line) = text.lines().find_map(|l| l.strip_prefix("EXPORT ")) else {
+            eprintln!(
+                "variant {label} did not report (status {:?}): {}",
+                out.status,
+                String::from_utf8_lossy(&out.stderr)
+            );
+            std::process::exit(2);
+        };
+        let exp: Exported = serde_json::from_str(line).expect("export json");
+        for p in exp.parts {
+            let mut st = PartStats::default();
+            st.evaluations = p.evaluations;
+            st.nontrivial = p.nontrivial.into_iter().collect();
+            st.labels = p.labels.iter().map(|(k, v)| (leak(k), *v)).collect();
+            st.samples = p.samples;
+            st.known_hits = p.known_hits;
+            st.exhaustive = p.exhaustive;
+            let name = format!("{label}:{}", p.name);
+            // known hits are merged below from the export's total
+            let hits = std::mem::take(&mut st.known_hits);
+            self.merge(&name, st);
+            self.part_stats(&name).known_hits = hits;
+        }
+        for (k, v) in exp.known_hits {
+            *self.known_hits.entry(k).or_default() += v;
+        }
+        for v in exp.violations {
+            self.violations.push(Violation {
+                variant: v.variant,
+                part: v.part,
+                case: v.case,
+                failure: Failure {
+                    signature: v.signature,
+                    detail: v.detail,
+                },
+            });
+        }
     }
 }
 
